@@ -326,6 +326,118 @@ func structuralEdits(o *original, rng *rand.Rand) []edit {
 	// ---- MAC replacement ------------------------------------------------------
 	noMAC := refage.EncodeNoMAC(o.stanzas)
 	mac := func(class, desc string, m []byte) { add(class, "mac", desc, o.stanzas, m, true) }
+	// replacements algebraically related to the true MAC (a comparison that
+	// counts or sums differences instead of testing equality may wrap or cancel)
+	{
+		rel := func(class, desc string, f func(m []byte)) {
+			m := append([]byte(nil), o.mac...)
+			f(m)
+			add(class, "mac", desc, o.stanzas, m, false)
+		}
+		rel("mac-complement", "MAC replaced by its bitwise complement (all 256 bits differ)", func(m []byte) {
+			for i := range m {
+				m[i] = ^m[i]
+			}
+		})
+		for _, x := range []byte{0x55, 0xAA, 0x80, 0x01, 0x0F, 0xF0} {
+			x := x
+			rel(fmt.Sprintf("mac-xor-%02x", x), fmt.Sprintf("every MAC byte XOR 0x%02x", x), func(m []byte) {
+				for i := range m {
+					m[i] ^= x
+				}
+			})
+		}
+		rel("mac-complement-first16", "first 16 MAC bytes complemented", func(m []byte) {
+			for i := 0; i < 16; i++ {
+				m[i] = ^m[i]
+			}
+		})
+		rel("mac-complement-last16", "last 16 MAC bytes complemented", func(m []byte) {
+			for i := 16; i < 32; i++ {
+				m[i] = ^m[i]
+			}
+		})
+		rel("mac-reversed", "MAC bytes in reverse order", func(m []byte) {
+			for l, r := 0, len(m)-1; l < r; l, r = l+1, r-1 {
+				m[l], m[r] = m[r], m[l]
+			}
+		})
+		rel("mac-rotate-byte-left", "MAC rotated left by one byte", func(m []byte) {
+			f := m[0]
+			copy(m, m[1:])
+			m[len(m)-1] = f
+		})
+		rel("mac-rotate-byte-right", "MAC rotated right by one byte", func(m []byte) {
+			l := m[len(m)-1]
+			copy(m[1:], m[:len(m)-1])
+			m[0] = l
+		})
+		rel("mac-rotate-bit-left", "MAC rotated left by one bit", func(m []byte) {
+			top := m[0] >> 7
+			for i := 0; i < len(m); i++ {
+				next := top
+				if i+1 < len(m) {
+					next = m[i+1] >> 7
+				}
+				m[i] = m[i]<<1 | next
+			}
+		})
+		rel("mac-rotate-bit-right", "MAC rotated right by one bit", func(m []byte) {
+			low := m[len(m)-1] & 1
+			for i := len(m) - 1; i >= 0; i-- {
+				prev := low
+				if i > 0 {
+					prev = m[i-1] & 1
+				}
+				m[i] = m[i]>>1 | prev<<7
+			}
+		})
+		rel("mac-plus-one", "MAC + 1 as a 256-bit big-endian integer", func(m []byte) {
+			for i := len(m) - 1; i >= 0; i-- {
+				m[i]++
+				if m[i] != 0 {
+					break
+				}
+			}
+		})
+		rel("mac-minus-one", "MAC - 1 as a 256-bit big-endian integer", func(m []byte) {
+			for i := len(m) - 1; i >= 0; i-- {
+				m[i]--
+				if m[i] != 0xff {
+					break
+				}
+			}
+		})
+		rel("mac-halves-swapped", "the two 16-byte halves of the MAC swapped", func(m []byte) {
+			h := append([]byte(nil), m[:16]...)
+			copy(m, m[16:])
+			copy(m[16:], h)
+		})
+		rel("mac-all-ff", "MAC replaced by 32 0xFF bytes", func(m []byte) {
+			for i := range m {
+				m[i] = 0xff
+			}
+		})
+		rel("mac-zero-first16", "first 16 MAC bytes zeroed", func(m []byte) {
+			for i := 0; i < 16; i++ {
+				m[i] = 0
+			}
+		})
+		rel("mac-zero-last16", "last 16 MAC bytes zeroed", func(m []byte) {
+			for i := 16; i < 32; i++ {
+				m[i] = 0
+			}
+		})
+		rel("mac-negated", "MAC replaced by its two's complement (0 - MAC mod 2^256)", func(m []byte) {
+			carry := byte(1)
+			for i := len(m) - 1; i >= 0; i-- {
+				m[i] = ^m[i] + carry
+				if m[i] != 0 {
+					carry = 0
+				}
+			}
+		})
+	}
 	mac("mac-random", "MAC replaced by 32 random bytes", mon.Bytes(rng, 32))
 	mac("mac-zero", "MAC replaced by 32 zero bytes", make([]byte, 32))
 	mac("mac-otherfile", "MAC replaced by the MAC of another valid file for the same recipients", o.sibMAC)
@@ -355,9 +467,7 @@ func structuralEdits(o *original, rng *rand.Rand) []edit {
 			m[0] ^= 1
 		}
 		mac("mac-keep-last16", "last 16 MAC bytes kept, the first 16 randomised", m)
-		m = append([]byte(nil), o.mac...)
-		m[31]++
-		mac("mac-lastbyte", "last MAC byte incremented", m)
+		// (last byte incremented: mac-plus-one above)
 		m = append([]byte(nil), o.mac...)
 		m[0] ^= 0x80
 		mac("mac-firstbit", "first MAC bit flipped", m)
